@@ -49,6 +49,8 @@ func run(args []string) {
 	shard := fs.Int("shard", 0, "shard index")
 	shards := fs.Int("shards", 1, "number of shards")
 	shardDepth := fs.Int("sharddepth", 6, "decisions hashed for sharding")
+	frontier := fs.Int("frontier", 0, "explore breadth-first until this many prefixes are queued, then stop and report them")
+	prefixFile := fs.String("prefixes", "", "JSON file with a list of decision prefixes to start from")
 	cpuprof := fs.String("cpuprofile", "", "write a CPU profile")
 	fs.Parse(args)
 	if *cpuprof != "" {
@@ -118,6 +120,20 @@ func run(args []string) {
 	cfg := interp.Config{MaxPaths: *maxPaths, MaxSteps: *maxSteps, MaxDepth: *maxDepth, SolverKind: *solver,
 		SolverTimeMs: *solverMs, TimeLimit: *timeLimit, Trace: *trace, SolverLog: *slog, KeepPaths: *keep,
 		Tier: *tier, Shard: *shard, Shards: *shards, ShardDepth: *shardDepth}
+	cfg.FrontierMin = *frontier
+	if *prefixFile != "" {
+		data, err := os.ReadFile(*prefixFile)
+		if err == nil {
+			json.Unmarshal(data, &cfg.Prefixes)
+		}
+		if len(cfg.Prefixes) == 0 {
+			// nothing to do for this worker
+			res := map[string]interface{}{"package": *pkg, "reports": []*interp.Report{{Harness: hs[0], ByStatus: map[string]int{}, Reach: map[string]int{}, Asserts: map[string]int{}}}}
+			data, _ := json.MarshalIndent(res, "", " ")
+			os.WriteFile(*out, data, 0o644)
+			return
+		}
+	}
 	var reports []*interp.Report
 	for _, h := range hs {
 		rep, err := sess.Explore(h, cfg)
